@@ -496,6 +496,7 @@ where
         }
     };
     let before = viols.len();
+    let mut reparsed: Option<T> = None;
     match guarded(|| s.parse::<T>()) {
         Err(p) => viols.push(viol(
             "G0-reparse-panic",
@@ -547,34 +548,39 @@ where
                     }
                 }
             }
-            // serde, in memory: the JSON is exactly the printed string, and reads back
-            let want = serde_json::to_string(&s).expect("string to JSON");
-            match guarded(|| serde_json::to_string(x)) {
+            reparsed = Some(y);
+        }
+    }
+    // serde, in memory: the JSON is exactly the printed string, and reads back
+    let want = serde_json::to_string(&s).expect("string to JSON");
+    match guarded(|| serde_json::to_string(x)) {
+        Err(p) => viols.push(viol("G0-serde-panic", p, Some(&s))),
+        Ok(Err(e)) => viols.push(viol("G0-serde-ser-fails", e.to_string(), Some(&s))),
+        Ok(Ok(j)) => {
+            if j != want {
+                viols.push(viol(
+                    "G0-json-not-printed-string",
+                    format!("JSON {} but printed form {}", j, want),
+                    Some(&s),
+                ));
+            }
+            match guarded(|| serde_json::from_str::<T>(&j)) {
                 Err(p) => viols.push(viol("G0-serde-panic", p, Some(&s))),
-                Ok(Err(e)) => viols.push(viol("G0-serde-ser-fails", e.to_string(), Some(&s))),
-                Ok(Ok(j)) => {
-                    if j != want {
-                        viols.push(viol(
-                            "G0-json-not-printed-string",
-                            format!("JSON {} but printed form {}", j, want),
-                            Some(&s),
-                        ));
-                    }
-                    match guarded(|| serde_json::from_str::<T>(&j)) {
-                        Err(p) => viols.push(viol("G0-serde-panic", p, Some(&s))),
-                        Ok(Err(e)) => viols.push(viol(
-                            "G0-serde-de-fails",
-                            format!("from_str({}) failed: {}", j, e),
-                            Some(&s),
-                        )),
-                        Ok(Ok(z)) => {
-                            if !T::identical(&z, &y) {
-                                viols.push(viol(
-                                    "G0-serde-differs-from-parse",
-                                    format!("from_str({}) = {}", j, T::diff(&z, &y)),
-                                    Some(&s),
-                                ));
-                            }
+                Ok(Err(e)) => viols.push(viol(
+                    "G0-serde-de-fails",
+                    format!("from_str({}) failed: {}", j, e),
+                    Some(&s),
+                )),
+                Ok(Ok(z)) => {
+                    if let Some(y) = &reparsed {
+                        match guarded(|| (T::identical(&z, y), T::diff(&z, y))) {
+                            Ok((true, _)) => {}
+                            Ok((false, d)) => viols.push(viol(
+                                "G0-serde-differs-from-parse",
+                                format!("from_str({}) = {}", j, d),
+                                Some(&s),
+                            )),
+                            Err(p) => viols.push(viol("G0-compare-panic", p, Some(&s))),
                         }
                     }
                 }
